@@ -252,6 +252,50 @@ def selection_sequences(run, small_cols, big_cols):
                             theorem="C09_cache_hit_needs_equal_key")
 
 
+def unfitted_history_cases(run, small_cols, big_cols):
+    """curves that are never fitted: rated untouched, then preprocessed (the
+    size criterion becomes defined), rated again, preprocessed differently,
+    rated again -- every value is the standalone rater's for the curve as it
+    is now (0 when the criterion fails, -1 while nothing is defined)"""
+    pipes = [["compute_tip_position", "correct_force_offset"],
+             ["compute_tip_position"],
+             ["compute_tip_position", "correct_force_offset",
+              "correct_tip_offset"]]
+    for cname, cols in (("short-approach", small_cols),
+                        ("long-approach", big_cols)):
+        for reg in ("Decision Tree", "Extra Trees"):
+            idnt = curves.make_indentation(cols)
+            hist = []
+            for step in [None] + pipes:
+                key = f"unfitted-history:{cname}:{reg}:{len(hist)}"
+                run.case({"scenario": "unfitted-history", "curve": cname,
+                          "regressor": reg, "step": len(hist)},
+                         kind="unfitted-history")
+                try:
+                    with warnings.catch_warnings():
+                        warnings.simplefilter("ignore")
+                        if step is not None:
+                            idnt.apply_preprocessing(list(step))
+                        hist.append(step)
+                        v = idnt.rate_quality(regressor=reg)
+                        twin = curves.make_indentation(cols)
+                        if step is not None:
+                            twin.apply_preprocessing(list(step))
+                        w = standalone(twin, reg)
+                        w2 = twin.rate_quality(regressor=reg)
+                except BaseException as e:
+                    run.failing(SITE, key, f"raised {type(e).__name__}: {e}",
+                                payload={"kind": "rerun"})
+                    continue
+                if not (v == w == w2 or (np.isnan(v) and np.isnan(w))):
+                    run.failing(
+                        SITE, key, f"{cname} curve, never fitted, {reg}: "
+                        f"after {hist} rate_quality returns {v}; a fresh "
+                        f"curve in the same state {w2}, the standalone rater "
+                        f"{w}", payload={"kind": "rerun"},
+                        theorem="C09_cache_reset_on_preprocessing")
+
+
 def memory_training_cases(run, cols):
     """an in-memory training set (X, y) used for several trainings in one
     process with a regressor that standardises its input: every fresh, equally
@@ -532,6 +576,7 @@ def check(run):
                   ["SVR (linear kernel)", "SVR (RBF kernel)", "Decision Tree",
                    "Extra Trees", "AdaBoost"])
     selection_sequences(run, cols, big)
+    unfitted_history_cases(run, cols, big)
     memory_training_cases(run, big)
     override_cases(run, big)
     failed_request_cases(run, big)
